@@ -18,6 +18,9 @@ LEval(op) == /\ op.k = "eval"
              /\ LET r == Result(op) IN
                 hist' = Append(hist, [EvBlank EXCEPT !.ev = "return", !.t = 1, !.op = op, !.locs = r.locs, !.paths = r.paths])
              /\ UNCHANGED <<prog, pc, docs>>
+LBad(op) == /\ op.k = "bad"
+            /\ hist' = Append(hist, [EvBlank EXCEPT !.ev = "error", !.t = 1, !.op = op])
+            /\ UNCHANGED <<prog, pc, docs>>
 LWrite(op) == /\ op.k = "write"
               /\ LET ex == Exists(docs[op.d], op.loc) IN
                  /\ docs' = IF ex THEN [docs EXCEPT ![op.d] = ReplaceAt(docs[op.d], op.loc, op.v)] ELSE docs
@@ -25,13 +28,13 @@ LWrite(op) == /\ op.k = "write"
               /\ UNCHANGED <<prog, pc>>
 \* one successor per step: the NEXT operation is drawn (TLC!RandomElement, seeded by -seed) into the variable ip,
 \* which this machine uses as its random tape <<operation, keep-a-write?>>; writes are kept 1 time in 8
-EvalOps == FilterSeq(Ops, LAMBDA o : o.k = "eval")
+EvalOps == FilterSeq(Ops, LAMBDA o : o.k # "write")
 LNext == /\ Len(hist) < HLen
          /\ LET o == ip[1]
-                op == IF Ops[o].k = "eval" \/ ip[2] = 1 THEN Ops[o] ELSE EvalOps[(o % Len(EvalOps)) + 1]
-            IN LEval(op) \/ LWrite(op)
+                op == IF Ops[o].k # "write" \/ ip[2] = 1 THEN Ops[o] ELSE EvalOps[(o % Len(EvalOps)) + 1]
+            IN LEval(op) \/ LWrite(op) \/ LBad(op)
          /\ ip' = <<RandomElement(1..Len(Ops)), RandomElement(1..8)>>
 LSpec == LInit /\ [][LNext]_vars
 LExport == Len(hist) = HLen => PrintT(<<"REPLAY", ToJson([mode |-> "session", id |-> <<"long", Len(hist)>>, docs |-> Docs0,
-                                                        queries |-> [n \in 1..Len(SQ) |-> RenderQuery(SQ[n])], hist |-> hist])>>)
+                                                        queries |-> AllQueryStrings, valid |-> Len(SQ), hist |-> hist])>>)
 =============================================================================
